@@ -101,7 +101,8 @@ type Obs struct {
 	Left    string    `json:"left,omitempty"`    // session: remaining ns
 	Expires string    `json:"expires,omitempty"` // session: expiry ns
 	Claims  *Claims   `json:"claims,omitempty"`
-	PayOK   bool      `json:"payok,omitempty"` // jwt: returned Payload == text before the last dot
+	PayOK   bool      `json:"payok,omitempty"`   // jwt: returned Payload == text before the last dot
+	Refresh bool      `json:"refresh,omitempty"` // gate: NeedRefresh
 	Crash   string    `json:"crash,omitempty"`
 	Pass    []PassRes `json:"pass,omitempty"`
 }
@@ -134,6 +135,7 @@ type Case struct {
 	User   string     `json:"user,omitempty"`
 	Host   string     `json:"host,omitempty"`
 	Expiry string     `json:"expiry,omitempty"`
+	Privs  []PrivKey  `json:"privs,omitempty"`
 	Ops    []PassOp   `json:"ops,omitempty"`
 	Start  *PassState `json:"start,omitempty"` // passcode histories: a stored record to start from
 	Mut    *Mut       `json:"mut,omitempty"`
@@ -189,10 +191,14 @@ func main() {
 	r.sessions()
 	r.timeTokens()
 	r.rsaTime()
+	r.challenges()
+	r.signJSON()
 	r.jwtHS()
 	r.jwtJSON()
 	r.jwtRS()
 	r.kidMatrix()
+	r.coreSign()
+	r.exchanges()
 	r.claims()
 	r.passcodes()
 }
